@@ -15,7 +15,7 @@ from aiocoap import Message, GET, NON, CON, error
 PROP = "C14"
 LEVEL = "model_checking"
 RULE = ("E2: all schedules with <= K deviations (drop / duplicate / reorder / delay / early submission / server reply mode "
-        "piggyback, separate CON, separate NON, silent / RST / ICMP error / sendmsg OSError / withdrawal of a held-back request) of scripted submissions of CON and "
+        "piggyback, separate CON, separate NON, silent / RST / ICMP error / sendmsg OSError / withdrawal of a held-back request or of the request whose exchange is open) of scripted submissions of CON and "
         "NON requests to two peers; distinct = distinct schedule; states = world digests at choice points")
 ASSUMPTIONS = [
     "exchange time-outs are recognised by the head request failing with a time-out error (their timing is C03's subject)",
